@@ -40,6 +40,9 @@ func c16Impl(in []int64) []int64 {
 	if (kind == 0 || kind == 1) && len(ops) >= 3 && ops[0] == 4 && ops[2] == 1 {
 		return c16Live(kind, ops) // marked case: the operations are issued from inside the running walks
 	}
+	if kind >= 0 && kind <= 2 && len(ops) >= 3 && ops[0] == 4 && ops[2] == 2 {
+		return c16Held(kind, ops) // marked case: Iter() values are held and resumed between the operations
+	}
 	switch kind {
 	case 0: // setz.Bits
 		var s [2]setz.Bits
@@ -214,6 +217,13 @@ func c16Impl(in []int64) []int64 {
 					l = append(l, int64(it.Value()))
 				}
 				out = append(out, PutList(l)...)
+			case 7, 8: // dsz.Bits has no Range / All: the first a values of a fresh iterator (a = 0: all), as the model answers
+				var l []int64
+				it := s[t].Iter()
+				for n := 0; !(a > 0 && int64(len(l)) >= a) && it.Next() && n < 1<<22; n++ {
+					l = append(l, int64(it.Value()))
+				}
+				out = append(out, PutList(l)...)
 			}
 		}
 	}
@@ -244,6 +254,8 @@ type c16API struct {
 	walk                  func(t int, all bool, fn func(uint) bool)
 	bulk                  func(c int64, t int, self bool)
 	clone                 func(t int)
+	newIter               func(t int) func() (uint, bool) // a held iterator: every call is one Next (+ Value)
+	quiet                 bool                            // Add / Remove return nothing (dsz.Bits)
 }
 
 func c16Drain(it setz.BitmapIter) []int64 {
@@ -265,6 +277,15 @@ func c16MakeAPI(kind int64) *c16API {
 			capacity: func(t int) int { return s[t].Cap() },
 			grow:     func(t int, v uint) { s[t].Grow(v) },
 			iter:     func(t int) []int64 { return c16Drain(s[t].Iter()) },
+			newIter: func(t int) func() (uint, bool) {
+				it := s[t].Iter()
+				return func() (uint, bool) {
+					if !it.Next() {
+						return 0, false
+					}
+					return it.Value(), true
+				}
+			},
 			walk: func(t int, all bool, fn func(uint) bool) {
 				if all {
 					s[t].All()(fn)
@@ -293,8 +314,46 @@ func c16MakeAPI(kind int64) *c16API {
 			},
 		}
 	}
+	if kind == 2 {
+		s := new([2]dsz.Bits)
+		return &c16API{
+			quiet:    true,
+			add:      func(t int, v uint) bool { s[t].Add(v); return false },
+			remove:   func(t int, v uint) bool { s[t].Remove(v); return false },
+			contains: func(t int, v uint) bool { return s[t].Contains(v) },
+			length:   func(t int) int { return s[t].Len() },
+			capacity: func(t int) int { return s[t].Cap() },
+			grow:     func(t int, v uint) { s[t].Grow(v) },
+			iter: func(t int) []int64 {
+				var l []int64
+				it := s[t].Iter()
+				for n := 0; it.Next() && n < 1<<22; n++ {
+					l = append(l, int64(it.Value()))
+				}
+				return l
+			},
+			newIter: func(t int) func() (uint, bool) {
+				it := s[t].Iter()
+				return func() (uint, bool) {
+					if !it.Next() {
+						return 0, false
+					}
+					return it.Value(), true
+				}
+			},
+		}
+	}
 	s := new([2]setz.Bitmap)
 	return &c16API{
+		newIter: func(t int) func() (uint, bool) {
+			it := s[t].Iter()
+			return func() (uint, bool) {
+				if !it.Next() {
+					return 0, false
+				}
+				return it.Value(), true
+			}
+		},
 		add:      func(t int, v uint) bool { return s[t].Add(v) },
 		remove:   func(t int, v uint) bool { return s[t].Remove(v) },
 		contains: func(t int, v uint) bool { return s[t].Contains(v) },
@@ -318,6 +377,98 @@ func c16MakeAPI(kind int64) *c16API {
 			}
 		},
 		clone: func(t int) { s[1-t] = s[t].Clone() },
+	}
+}
+
+// ---------------------------------------------------------------- held iterators
+// A case whose first operation is Cap[.](2) is run with iterators that are HELD across operations (all three types).  The
+// first Iter / Range(k) / All(k) operation on a set takes `it := s.Iter()` and keeps it; it is answered with the values of
+// k calls of Next (Iter, k = 0: until Next returns false).  The operations that follow are made BETWEEN two Next calls of
+// that iterator; the next Iter / Range / All operation on the same set is answered by RESUMING the held iterator (one per
+// set, both sets can have one).
+// What the property requires of a resumed iterator ("Iter enumerates exactly the members in ascending order" over "all
+// interleavings of bulk and element operations"; the code re-reads the live word at every Next): every Next hands out the
+// least member OF THE SET AS IT IS AT THAT CALL that is greater than the value handed out last - the members above the
+// cursor at the time of each Next, never a value that is not a member at that moment, never skipping one that is.  Hence,
+// for an iterator standing at v when the set has become S,
+//
+//	Iter / Range(k') on S  =  first k' of ( members of S that are <= v (read with Contains)  ++  what the iterator still yields )
+//
+// and the case stays a plain operation sequence for model and specification.  An iterator whose Next returned false is
+// dropped (what a finished iterator does after a later growth is not constrained by the property): the next such
+// operation takes a fresh one.
+func c16Held(kind int64, ops []int64) []int64 {
+	api := c16MakeAPI(kind)
+	var out []int64
+	var held [2]func() (uint, bool)
+	var pos [2]uint
+	for i := 0; i+2 < len(ops); i += 3 {
+		c, t, a := ops[i], int(ops[i+1]&1), ops[i+2]
+		if c < 6 || c > 8 {
+			c16Plain(api, &out, c, t, a)
+			continue
+		}
+		if c == 6 {
+			a = 0
+		}
+		var seg []int64
+		if held[t] == nil {
+			held[t] = api.newIter(t)
+		} else {
+			for u := uint(0); u <= pos[t]; u++ {
+				if api.contains(t, u) {
+					seg = append(seg, int64(u))
+				}
+			}
+			if a > 0 && int64(len(seg)) >= a { // answered by the members at or below the cursor: the iterator rests
+				out = append(out, PutList(seg[:a])...)
+				continue
+			}
+		}
+		for n := 0; !(a > 0 && int64(len(seg)) >= a) && n < 1<<22; n++ {
+			v, ok := held[t]()
+			if !ok {
+				held[t] = nil
+				break
+			}
+			seg = append(seg, int64(v))
+			pos[t] = v
+		}
+		out = append(out, PutList(seg)...)
+	}
+	return out
+}
+
+func c16Plain(api *c16API, outp *[]int64, c int64, t int, a int64) {
+	out := *outp
+	defer func() { *outp = out }()
+	switch c {
+	case 0:
+		if r := api.add(t, uint(a)); !api.quiet {
+			out = append(out, B(r))
+		}
+	case 1:
+		if r := api.remove(t, uint(a)); !api.quiet {
+			out = append(out, B(r))
+		}
+	case 2:
+		out = append(out, B(api.contains(t, uint(a))))
+	case 3:
+		out = append(out, int64(api.length(t)))
+	case 4:
+		out = append(out, int64(api.capacity(t)))
+	case 5:
+		api.grow(t, uint(a))
+	case 6:
+		out = append(out, PutList(api.iter(t))...)
+	case 9, 10, 11:
+		if api.bulk != nil {
+			api.bulk(c, t, a == 1)
+		}
+	case 12:
+		if api.clone != nil {
+			api.clone(t)
+		}
 	}
 }
 
@@ -606,7 +757,10 @@ func c16Gen(c *Ctx) {
 	// (a) small scope, complete: four 3-member sets x the walk standing at the 1st / 2nd member x every sequence of <= 2
 	// (thorough: 3) edits out of 19 (Adds below / in / beyond the current word and beyond the capacity, Removes of visited
 	// and not yet visited members, Grow, Merge of a longer set), then the walk runs to its end.
-	{
+	// The same two families are run a second time as HELD ITERATORS (marker Cap(2), see c16Held; there also for dsz.Bits,
+	// without the bulk operations): the walk is `it := s.Iter()` advanced by Next, the operations lie between two Next calls.
+	for _, mk := range []int64{1, 2} {
+		mk, nk, fam := mk, int(mk)+1, []string{"", "live-walk", "held-iter"}[mk]
 		bases := [][3]int64{{1, 2, 3}, {1, 3, 64}, {63, 64, 70}, {5, 64, 130}}
 		var ed [][3]int64
 		for _, v := range []int64{0, 2, 4, 62, 63, 65, 100, 127, 1000, 5000} {
@@ -621,9 +775,9 @@ func c16Gen(c *Ctx) {
 		for l, m := 0, 1; l <= L; l, m = l+1, m*len(ed) {
 			per += m
 		}
-		c.Each(2*len(bases)*2*2*per, func(i int, t *T) {
-			kind := int64(i % 2)
-			i /= 2
+		c.Each(nk*len(bases)*2*2*per, func(i int, t *T) {
+			kind := int64(i % nk)
+			i /= nk
 			b := bases[i%len(bases)]
 			i /= len(bases)
 			k := int64(1 + i%2)
@@ -635,112 +789,128 @@ func c16Gen(c *Ctx) {
 				i -= m
 				l++
 			}
-			in := []int64{kind, 4, 0, 1, 0, 1, 2, 0, 1, 200, 0, 0, b[0], 0, 0, b[1], 0, 0, b[2], walk, 0, k}
+			in := []int64{kind, 4, 0, mk, 0, 1, 2, 0, 1, 200, 0, 0, b[0], 0, 0, b[1], 0, 0, b[2], walk, 0, k}
 			for j := 0; j < l; j++ {
 				e := ed[i%len(ed)]
 				i /= len(ed)
+				if kind == 2 && e[0] >= 9 { // dsz.Bits has no bulk operations: a Remove in the second word instead
+					e = [3]int64{1, 0, 64 + e[0]}
+				}
 				in = append(in, e[0], e[1], e[2])
 			}
-			in = append(in, 15-walk, 0, 0, 3, 0, 0, 6, 0, 0, 4, 0, 0)
-			t.Try(fmt.Sprintf("live-walk-small-kind%d", kind), in, l >= 1)
+			if mk == 2 && walk == 8 {
+				in = append(in, 6, 0, 0, 3, 0, 0, 4, 0, 0) // the held iterator is resumed by a plain Iter operation
+			} else {
+				in = append(in, 15-walk, 0, 0, 3, 0, 0, 6, 0, 0, 4, 0, 0)
+			}
+			t.Try(fmt.Sprintf("%s-small-kind%d", fam, kind), in, l >= 1)
+		})
+		// (b) random: 2-7 members in one word (sometimes a second word, sometimes room grown in advance), a walk stopped at
+		// the 1st-3rd member, groups of 1-4 operations from inside the callback (a growth beyond the capacity - Add, Grow or
+		// Merge of a longer set - followed by changes of values of the word the walk stands in, most of them above the
+		// position), the walk continued for a few members or to its end, up to three such groups.
+		c.Each(c.N(8000, 150000), func(i int, t *T) {
+			r := t.R
+			kind := int64(i % nk)
+			tg := int64(r.Intn(2))
+			in := []int64{kind, 4, int64(r.Intn(2)), mk}
+			base := 64 * int64([]int{0, 0, 0, 1, 1, 2, 5, 17}[r.Intn(8)])
+			top := base + 64
+			if r.Intn(4) == 0 {
+				top = base + 64*int64(1+r.Intn(4))
+				in = append(in, 5, tg, top-1)
+			}
+			mem := map[int64]bool{}
+			for j, m := 0, 2+r.Intn(6); j < m; j++ {
+				v := base + int64(r.Intn(64))
+				if r.Intn(6) == 0 {
+					v += 64
+				}
+				if v >= top {
+					top = (v/64 + 1) * 64
+				}
+				mem[v] = true
+				in = append(in, 0, tg, v)
+			}
+			for j, m := 0, r.Intn(4); j < m; j++ { // the other set: longer, for Merge from inside the callback
+				in = append(in, 0, 1-tg, []int64{r.Int63n(64), base + r.Int63n(64), top + r.Int63n(700)}[r.Intn(3)])
+			}
+			walkOp := func() int64 { return int64(7 + r.Intn(2)) }
+			if mk == 2 {
+				walkOp = func() int64 { return int64(6 + r.Intn(3)) } // Iter: the held iterator is drained
+			}
+			pos := int64(-1) // the value the walk stands at (as far as the generator can tell: used to aim, not to judge)
+			k := int64(1 + r.Intn(3))
+			for n := int64(0); n < k; {
+				if pos++; mem[pos] {
+					n++
+				} else if pos > top {
+					break
+				}
+			}
+			in = append(in, walkOp(), tg, k)
+			edits := 0
+			for g, groups := 0, 1+r.Intn(3); g < groups; g++ {
+				grown := false
+				for j, m := 0, 1+r.Intn(4); j < m; j++ {
+					x := r.Intn(10)
+					if j == 0 && r.Intn(2) == 0 {
+						x = 0
+					} else if grown && r.Intn(2) == 0 {
+						x = 3
+					}
+					word := pos / 64 * 64
+					switch {
+					case x < 2: // growth beyond the capacity
+						grown = true
+						far := top + 64*int64(r.Intn(3)) + int64(r.Intn(64))
+						if r.Intn(3) == 0 {
+							far = top + r.Int63n(4000)
+						}
+						top = (far/64 + 1) * 64
+						switch r.Intn(4) {
+						case 0:
+							in = append(in, 5, tg, far)
+						case 1:
+							if kind == 2 {
+								in = append(in, 0, tg, far)
+							} else {
+								in = append(in, 0, 1-tg, far, 11, tg, 0)
+							}
+						default:
+							in = append(in, 0, tg, far)
+						}
+					case x < 6: // a value of the current word, mostly above the position
+						v := word + int64(r.Intn(64))
+						if pos%64 < 63 && r.Intn(4) != 0 {
+							v = pos + 1 + r.Int63n(63-pos%64)
+						}
+						in = append(in, int64(r.Intn(2)), tg, v)
+					case x < 7: // the current value, or one near it in the neighbouring words
+						in = append(in, int64(r.Intn(2)), tg, []int64{pos, word + 64, word + 64 + r.Int63n(64), r.Int63n(top)}[r.Intn(4)])
+					case x < 8:
+						in = append(in, int64(2+r.Intn(3)), tg, pos+int64(r.Intn(3)))
+					case x < 9 && kind != 2:
+						in = append(in, int64(9+r.Intn(3)), tg, 0)
+					case r.Intn(3) == 0: // a walk of the other set in between (held mode: a second held iterator)
+						in = append(in, walkOp(), 1-tg, int64(1+r.Intn(3)))
+					default:
+						in = append(in, int64(r.Intn(2)), 1-tg, r.Int63n(top))
+					}
+					edits++
+				}
+				k2 := int64(0)
+				if g+1 < groups || r.Intn(3) == 0 {
+					k2 = int64(1 + r.Intn(6))
+				}
+				in = append(in, walkOp(), tg, k2)
+				pos += int64(r.Intn(8)) // roughly
+			}
+			in = append(in, 3, 0, 0, 6, 0, 0, 4, 0, 0, 3, 1, 0, 6, 1, 0)
+			t.C.Count("op", fam)
+			t.Try(fmt.Sprintf("%s-kind%d", fam, kind), in, edits >= 2)
 		})
 	}
-	// (b) random: 2-7 members in one word (sometimes a second word, sometimes room grown in advance), a walk stopped at
-	// the 1st-3rd member, groups of 1-4 operations from inside the callback (a growth beyond the capacity - Add, Grow or
-	// Merge of a longer set - followed by changes of values of the word the walk stands in, most of them above the
-	// position), the walk continued for a few members or to its end, up to three such groups.
-	c.Each(c.N(8000, 150000), func(i int, t *T) {
-		r := t.R
-		kind := int64(i % 2)
-		tg := int64(r.Intn(2))
-		in := []int64{kind, 4, int64(r.Intn(2)), 1}
-		base := 64 * int64([]int{0, 0, 0, 1, 1, 2, 5, 17}[r.Intn(8)])
-		top := base + 64
-		if r.Intn(4) == 0 {
-			top = base + 64*int64(1+r.Intn(4))
-			in = append(in, 5, tg, top-1)
-		}
-		mem := map[int64]bool{}
-		for j, m := 0, 2+r.Intn(6); j < m; j++ {
-			v := base + int64(r.Intn(64))
-			if r.Intn(6) == 0 {
-				v += 64
-			}
-			if v >= top {
-				top = (v/64 + 1) * 64
-			}
-			mem[v] = true
-			in = append(in, 0, tg, v)
-		}
-		for j, m := 0, r.Intn(4); j < m; j++ { // the other set: longer, for Merge from inside the callback
-			in = append(in, 0, 1-tg, []int64{r.Int63n(64), base + r.Int63n(64), top + r.Int63n(700)}[r.Intn(3)])
-		}
-		walkOp := func() int64 { return int64(7 + r.Intn(2)) }
-		pos := int64(-1) // the value the walk stands at (as far as the generator can tell: used to aim, not to judge)
-		k := int64(1 + r.Intn(3))
-		for n := int64(0); n < k; {
-			if pos++; mem[pos] {
-				n++
-			} else if pos > top {
-				break
-			}
-		}
-		in = append(in, walkOp(), tg, k)
-		edits := 0
-		for g, groups := 0, 1+r.Intn(3); g < groups; g++ {
-			grown := false
-			for j, m := 0, 1+r.Intn(4); j < m; j++ {
-				x := r.Intn(10)
-				if j == 0 && r.Intn(2) == 0 {
-					x = 0
-				} else if grown && r.Intn(2) == 0 {
-					x = 3
-				}
-				word := pos / 64 * 64
-				switch {
-				case x < 2: // growth beyond the capacity
-					grown = true
-					far := top + 64*int64(r.Intn(3)) + int64(r.Intn(64))
-					if r.Intn(3) == 0 {
-						far = top + r.Int63n(4000)
-					}
-					top = (far/64 + 1) * 64
-					switch r.Intn(4) {
-					case 0:
-						in = append(in, 5, tg, far)
-					case 1:
-						in = append(in, 0, 1-tg, far, 11, tg, 0)
-					default:
-						in = append(in, 0, tg, far)
-					}
-				case x < 6: // a value of the current word, mostly above the position
-					v := word + int64(r.Intn(64))
-					if pos%64 < 63 && r.Intn(4) != 0 {
-						v = pos + 1 + r.Int63n(63-pos%64)
-					}
-					in = append(in, int64(r.Intn(2)), tg, v)
-				case x < 7: // the current value, or one near it in the neighbouring words
-					in = append(in, int64(r.Intn(2)), tg, []int64{pos, word + 64, word + 64 + r.Int63n(64), r.Int63n(top)}[r.Intn(4)])
-				case x < 8:
-					in = append(in, int64(2+r.Intn(3)), tg, pos+int64(r.Intn(3)))
-				case x < 9:
-					in = append(in, int64(9+r.Intn(3)), tg, 0)
-				default:
-					in = append(in, int64(r.Intn(2)), 1-tg, r.Int63n(top))
-				}
-				edits++
-			}
-			k2 := int64(0)
-			if g+1 < groups || r.Intn(3) == 0 {
-				k2 = int64(1 + r.Intn(6))
-			}
-			in = append(in, walkOp(), tg, k2)
-			pos += int64(r.Intn(8)) // roughly
-		}
-		in = append(in, 3, 0, 0, 6, 0, 0, 4, 0, 0, 3, 1, 0, 6, 1, 0)
-		t.C.Count("op", "live walk")
-		t.Try(fmt.Sprintf("live-walk-kind%d", kind), in, edits >= 2)
-	})
 }
 
 // shrinking must not turn Remove/Contains of a huge value into Add/Grow of it (which would have to allocate the set)
@@ -765,6 +935,9 @@ func c16Describe(in []int64) string {
 	if len(in) > 3 && in[0] < 2 && in[1] == 4 && in[3] == 1 {
 		s += " [live walks: the operations after Range/All(k>0) are issued from inside the k-th call of its callback, the next Range/All on that set continues the same walk]"
 	}
+	if len(in) > 3 && in[0] <= 2 && in[1] == 4 && in[3] == 2 {
+		s += " [held iterators: the first Iter/Range/All(k) on a set keeps it := s.Iter() after k calls of Next, the following operations lie between two Next calls, the next Iter/Range/All on that set resumes the same iterator]"
+	}
 	for i := 1; i+2 < len(in); i += 3 {
 		s += fmt.Sprintf(" %s[%d](%d)", c16Names[in[i]%13], in[i+1], in[i+2])
 	}
@@ -774,5 +947,5 @@ func c16Describe(in []int64) string {
 func init() {
 	Register(&Prop{ID: "C16", Pure: true, Num: 16, SpecMode: "equal", Gen: c16Gen, Impl: c16Impl,
 		Shrink: c16Shrink, Describe: c16Describe,
-		Rule: "exhaustive: every op sequence up to the tier's length over values {0,1,62,63,64,65,127,128,129} (word boundaries) for setz.Bits, setz.Bitmap, dsz.Bits, followed by Len+Iter; random: 5-60 ops over two sets of different word counts mixing element and bulk ops. distinct = distinct op sequence; non-trivial = at least 2 operations of at least 2 kinds before the final observation. live walks: cases marked by a leading Cap(1) issue the operations that follow Range/All(k>0) from inside the k-th callback call and let the next Range/All on that set continue the same walk (complete small scope + random groups: growth beyond the capacity followed by changes in the word the walk stands in); non-trivial = at least 1 (small scope) / 2 (random) operations issued from inside a callback"})
+		Rule: "exhaustive: every op sequence up to the tier's length over values {0,1,62,63,64,65,127,128,129} (word boundaries) for setz.Bits, setz.Bitmap, dsz.Bits, followed by Len+Iter; random: 5-60 ops over two sets of different word counts mixing element and bulk ops. distinct = distinct op sequence; non-trivial = at least 2 operations of at least 2 kinds before the final observation. live walks: cases marked by a leading Cap(1) issue the operations that follow Range/All(k>0) from inside the k-th callback call and let the next Range/All on that set continue the same walk (complete small scope + random groups: growth beyond the capacity followed by changes in the word the walk stands in); non-trivial = at least 1 (small scope) / 2 (random) operations issued from inside a callback. held iterators: the same two families with a leading Cap(2), for all three types: Iter/Range/All(k) advance one held s.Iter() by k calls of Next, the operations in between lie between two Next calls (every Next must hand out the least current member above the last value)"})
 }
